@@ -334,3 +334,31 @@ def run(ck, prog):
     _run_pre_progress(ck, prog)
     from sa import progress
     progress.run_rule(ck, prog, set(DIMENSION_FILES))
+
+
+# ------------------------------------------------------------------ the reference backend keeps its own shape contracts
+_run_pre_dense = run
+
+
+def dense_contracts(ck, prog):
+    """'shape mismatches are handled the same way by all backends': the bindings' contracts above are stated relative to the
+    built-in type, so the built-in type's own guards (the C03 contract table) are part of this property as well - a
+    DenseMatrix method that stops rejecting a mismatch makes the three backends disagree."""
+    from sa import e1
+    from props import C03
+    import copy
+    specs = []
+    for g in C03.SPECS:
+        g2 = copy.copy(g)
+        g2.rule = "E6-contract"
+        g2.name = "dense " + g.name
+        specs.append(g2)
+    e1.run(ck, prog, specs)
+
+
+def run(ck, prog):
+    _run_pre_dense(ck, prog)
+    dense_contracts(ck, prog)
+
+
+EXPLANATION += (" The built-in type's own shape contracts (C03's table) are evaluated here as the reference side of 'handled the same way by all backends'.")
